@@ -53,8 +53,9 @@ func (s St) size() int {
 
 var c11Lits = map[string]datamodel.Node{
 	"0": nInt(0), "1": nInt(1), "2": nInt(2), "1.0": nFloat(1.0), "1.5": nFloat(1.5), `"a"`: nStr("a"), "true": nBool(true), "null": nNull(), "[1]": nList(nInt(1)),
+	"{x:1,y:2}": nMap(kv{"x", nInt(1)}, kv{"y", nInt(2)}), "[{y:2,x:1}]": nList(nMap(kv{"y", nInt(2)}, kv{"x", nInt(1)})),
 }
-var c11LitNames = []string{"0", "1", "2", "1.0", "1.5", `"a"`, "true", "null", "[1]"}
+var c11LitNames = []string{"0", "1", "2", "1.0", "1.5", `"a"`, "true", "null", "[1]", "{x:1,y:2}", "[{y:2,x:1}]"}
 
 func (s St) constructor() policy.Constructor {
 	switch s.Op {
@@ -340,6 +341,9 @@ var c11AVals = []namedNode{
 	{"-", nil}, {"0", nInt(0)}, {"1", nInt(1)}, {"2", nInt(2)}, {"2^53-1", nInt(1<<53 - 1)}, {"int64-min", nInt(math.MinInt64)}, {"int64-max", nInt(math.MaxInt64)}, {"-1", nInt(-1)}, {"1.5", nFloat(1.5)}, {"1.0", nFloat(1.0)},
 	{"NaN", nFloat(math.NaN())}, {"+Inf", nFloat(math.Inf(1))}, {`"a"`, nStr("a")}, {`"ab"`, nStr("ab")}, {"true", nBool(true)}, {"null", nNull()},
 	{"[]", nList()}, {"[1]", nList(nInt(1))}, {"[1,2]", nList(nInt(1), nInt(2))}, {"[2,1]", nList(nInt(2), nInt(1))}, {"{}", nMap()},
+	// maps are unordered: the same entries inserted in either order, as a value and inside a list
+	{"{x:1,y:2}", nMap(kv{"x", nInt(1)}, kv{"y", nInt(2)})}, {"{y:2,x:1}", nMap(kv{"y", nInt(2)}, kv{"x", nInt(1)})}, {"{x:1,y:3}", nMap(kv{"x", nInt(1)}, kv{"y", nInt(3)})},
+	{"[{x:1,y:2}]", nList(nMap(kv{"x", nInt(1)}, kv{"y", nInt(2)}))},
 }
 var c11BVals = []namedNode{{"-", nil}, {`"a"`, nStr("a")}, {`"b"`, nStr("b")}, {"1", nInt(1)}}
 var c11LVals = []namedNode{
